@@ -203,6 +203,58 @@ def consts(rep, d) -> None:
                 rep.violate(f"C14/const-optional-absent/{type(v).__name__}", f"optional const {v!r}: absent reads back as {obs['absent']}", const=v)
 
 
+def class_collisions(rep, d) -> None:
+    """Two enum declarations that derive ONE class name and the same member names but list different values (positional names, punctuation
+    variants): either a diagnostic, or every surviving holder admits exactly the values ITS declaration lists."""
+    import subprocess
+
+    from ..common import VENV_PY
+    pairs = {"positional": (["1", "2", "3"], ["10", "20", "30"]), "punctuation": (["in progress", "done"], ["in_progress", "done"]), "case": (["Active", "Idle"], ["active", "idle"]),
+             "ints-vs-strings": ([0, 1], ["0", "1"])}
+    for literal in (False, True):
+        for name, (va, vb) in pairs.items():
+            ea = {"type": "integer" if isinstance(va[0], int) else "string", "enum": va}
+            eb = {"type": "string", "enum": vb}
+            doc = gen.mkdoc(schemas={"Item": {"type": "object", "properties": {"code": ea}}, "ItemCode": eb, "Other": {"type": "object", "properties": {"c": {"$ref": "#/components/schemas/ItemCode"}}}})
+            pkg = f"col{int(literal)}{name.replace('-', '')}"
+            g = gen.generate(doc, d / pkg, literal_enums=literal)
+            rep.count(1, ("class-collision", name, literal))
+            if g["exc"]:
+                rep.violate(f"C14/class-collision/{name}/crash", f"{name}: {g['exc'].strip().splitlines()[-1][:160]}", doc=doc)
+                continue
+            script = ("import json,sys; sys.path.insert(0, %r); out={}\n"
+                      "import importlib\n"
+                      "for cls, prop, vals in %r:\n"
+                      "    try:\n"
+                      "        C = getattr(importlib.import_module(%r + '.models'), cls)\n"
+                      "    except Exception as e:\n"
+                      "        out[cls] = 'missing'; continue\n"
+                      "    r = {}\n"
+                      "    for v in vals:\n"
+                      "        try:\n"
+                      "            r[json.dumps(v)] = C.from_dict({prop: v}).to_dict().get(prop) == v\n"
+                      "        except (ValueError, TypeError, KeyError):\n"
+                      "            r[json.dumps(v)] = 'rejected'\n"
+                      "    out[cls] = r\n"
+                      "print(json.dumps(out))\n") % (str(d), [("Item", "code", va + vb), ("Other", "c", va + vb)], pkg)
+            p = subprocess.run([VENV_PY, "-I", "-c", script], capture_output=True, text=True, timeout=120)
+            if p.returncode != 0:
+                rep.violate(f"C14/class-collision/{name}/sandbox", p.stderr[-300:], doc=doc)
+                continue
+            out = json.loads(p.stdout.strip().splitlines()[-1])
+            style = "literal" if literal else "class"
+            for cls, listed in (("Item", va), ("Other", vb)):
+                r = out.get(cls)
+                if r == "missing" or r is None:
+                    if not g["diags"]:
+                        rep.violate(f"C14/class-collision/{name}/{style}/holder-missing-silently", f"{name}: {cls} is not generated and nothing is reported", doc=doc)
+                    continue
+                wrong = {v: ok for v, ok in r.items() if (json.loads(v) in listed) != (ok is True)}
+                if wrong:
+                    rep.violate(f"C14/class-collision/{name}/{style}/admits-wrong-values", f"{name}: {cls} lists {listed} but behaves as {r} (two enum declarations with one class name were merged)",
+                                doc=doc, observed=r)
+
+
 def run(rep) -> None:
     quick = rep.tier == "quick"
     rnd = random.Random(seed() * 1039 + 14)
@@ -242,6 +294,7 @@ def run(rep) -> None:
         build_and_run(rep, todo, d, False, "c")
         build_and_run(rep, todo, d, True, "l")
         consts(rep, d)
+        class_collisions(rep, d)
         rep.traces += len(lists)        # every enumerated list: real member names validated against the model's EnumKeys
         rep.sample({"values": todo[5]["values"], "null": todo[5]["null"], "inline": todo[5]["inline"]})
         rep.sample({"const": [True, 0, "", 1.5]})
